@@ -335,7 +335,7 @@ def parseExtEntry : List String → Option (ExtEntry × List String)
   | kind :: k :: ts => do
     let n ← k.toNat?
     let (ins, ts) ← parseMany (fun ts => match ts with
-      | h :: r => (strOfHex h).map (·, r)
+      | h :: r => if h == "-" then some ([], r) else (strOfHex h).map (·, r)
       | [] => none) n ts
     match ts with
     | "none" :: r => pure ({ kind := kind, ins := ins, out := none }, r)
